@@ -262,6 +262,24 @@ var variants = []variant{
 	}},
 }
 
+// reloadCountsOf reads the reload counters of a generation: from this process's registry, or, for a process-level agent, from
+// the agent's own metric listener.
+func reloadCountsOf(a *e2e.Agent) (ok, ko float64) {
+	if !a.ProcessLevel() {
+		return reloadCounts()
+	}
+	for _, m := range a.GatherMetrics() {
+		if m.Name == "slogagent_reloads_total" {
+			if m.Labels["status"] == "success" {
+				ok = m.Value
+			} else {
+				ko = m.Value
+			}
+		}
+	}
+	return
+}
+
 func reloadCounts() (ok, ko float64) {
 	for _, m := range vkit.Gather(prometheus.DefaultGatherer) {
 		if m.Name == "slogagent_reloads_total" {
@@ -312,6 +330,9 @@ func e2eChild(c *vkit.Ctx) {
 	if sc.Procs > 0 {
 		runtime.GOMAXPROCS(sc.Procs)
 	}
+	if idx%3 == 2 {
+		sc.ProcessLevel = true // run.Run with the reloader in its own process, reloaded with SIGHUP, stopped with SIGTERM
+	}
 	nReload := 2 + r.Intn(4)
 	plan := []variant{}
 	for k := 0; k < nReload; k++ {
@@ -335,24 +356,31 @@ func e2eChild(c *vkit.Ctx) {
 			baseYAML, _ := os.ReadFile(a.CfgPath)
 			go func() {
 				defer close(done)
-				ro := a.Orc.(*run.ReloadableOrchestrator)
+				ro, _ := a.Orc.(*run.ReloadableOrchestrator)
 				for k, v := range plan {
 					time.Sleep(time.Duration(2+r.Intn(25)) * time.Millisecond)
 					_ = os.WriteFile(a.CfgPath, []byte(v.Edit(string(baseYAML), a)), 0o644)
-					ok0, ko0 := reloadCounts()
-					if k%2 == 1 {
-						_ = syscall.Kill(os.Getpid(), syscall.SIGHUP) // asynchronous, as in production
+					ok0, ko0 := reloadCountsOf(a)
+					if k%2 == 1 || a.ProcessLevel() {
+						if a.ProcessLevel() {
+							_ = a.Signal(syscall.SIGHUP) // the real thing: another process, run.Run's reloader
+						} else {
+							_ = syscall.Kill(os.Getpid(), syscall.SIGHUP) // asynchronous, as in production
+						}
 						for dl := time.Now().Add(15 * time.Second); time.Now().Before(dl); {
-							ok1, ko1 := reloadCounts()
+							ok1, ko1 := reloadCountsOf(a)
 							if ok1+ko1 > ok0+ko0 {
 								break
+							}
+							if a.ProcessLevel() {
+								time.Sleep(4 * time.Millisecond) // every look is an HTTP scrape
 							}
 							time.Sleep(time.Millisecond)
 						}
 					} else {
 						ro.ReloadForVerif()
 					}
-					ok1, ko1 := reloadCounts()
+					ok1, ko1 := reloadCountsOf(a)
 					switch {
 					case v.OK && (ok1 != ok0+1 || ko1 != ko0):
 						planErr = fmt.Sprintf("reload %d with configuration '%s' should succeed: success %v->%v failure %v->%v", k, v.Name, ok0, ok1, ko0, ko1)
@@ -402,6 +430,9 @@ func e2eChild(c *vkit.Ctx) {
 		c.Event("e2e_"+k, v)
 	}
 	c.Event("e2e_runs", 1)
+	if sc.ProcessLevel {
+		c.Event("e2e_process_level_runs", 1)
+	}
 	c.Event("e2e_reloads_ok", wantOK)
 	c.Event("e2e_reloads_refused", wantKO)
 	if wantOK > 0 {
